@@ -578,6 +578,50 @@ impl Check for C04 {
                 }
             }
         });
+        // hundreds of overlapping pieces over one spot (winding numbers beyond 8-bit counters)
+        run.bound("scribbles", "one segment retraced 130 / 260 times and a triangle outline repeated 130 times in one subpath x 2 joins, width 4".to_string());
+        run.par(6, |s, l| {
+            let join = [1u8, 0][s % 2];
+            let mut ops = vec![POp::M(8.0, 9.0)];
+            match s / 2 {
+                0 | 1 => {
+                    let n = if s / 2 == 0 { 130 } else { 260 };
+                    for i in 0..n {
+                        ops.push(if i % 2 == 0 { POp::L(28.0, 24.0) } else { POp::L(8.0, 9.0) });
+                    }
+                }
+                _ => {
+                    for _ in 0..130 {
+                        ops.extend([POp::L(28.0, 12.0), POp::L(16.0, 29.0), POp::L(8.0, 9.0)]);
+                    }
+                }
+            }
+            let st = StyleSpec { width: 4.0, cap: 1, join, miter: 4.0, dash: vec![], offset: 0. };
+            account(run, 9800 + s, l, &PathSpec::new(ops), &st, &IDENT, false);
+        });
+        // strongly anisotropic transforms: the device thickness of a stroke depends on its direction
+        // (a horizontal rule under scale(0.002, 100) is 100 x width thick), nothing may be judged by
+        // sqrt|det|
+        run.bound("anisotropic transforms", "3-vertex polylines over the 16 grid points given in user units of scale(0.002, 100) and scale(250, 0.01), width 0.05 / 20 user units, round and miter joins".to_string());
+        run.par(g.len() * g.len(), |s, l| {
+            let (i0, i1) = (s / g.len(), s % g.len());
+            if i0 == i1 {
+                return;
+            }
+            for i2 in 0..g.len() {
+                if i2 == i1 || (q && (i0 + i1 + i2) % 3 != 0) {
+                    continue;
+                }
+                for (sx, sy, wd) in [(0.002f32, 100.0f32, 0.05f32), (250.0, 0.01, 20.0)] {
+                    let pts = [g[i0], g[i1], g[i2]];
+                    let ops: Vec<POp> = pts.iter().enumerate().map(|(j, p)| if j == 0 { POp::M(p.0 / sx, p.1 / sy) } else { POp::L(p.0 / sx, p.1 / sy) }).collect();
+                    for (cap, join) in [(0u8, 1u8), (1, 0)] {
+                        let st = StyleSpec { width: wd, cap, join, miter: 4.0, dash: vec![], offset: 0. };
+                        account(run, 9900 + s, l, &PathSpec::new(ops.clone()), &st, &[sx, 0., 0., sy, 0., 0.], false);
+                    }
+                }
+            }
+        });
         // many subpaths in one path
         run.bound("many subpaths", "100 and 300 short open / closed subpaths tiled over 36x36 in one path x 3 caps x 2 joins".to_string());
         run.par(2 * 3 * 2, |s, l| {
